@@ -52,6 +52,14 @@ def lex(src):
                 else:
                     i += 1
             continue
+        mr = re.match(r'b?r(#*)"', src[i:i + 12])
+        if mr and (i == 0 or not (src[i - 1].isalnum() or src[i - 1] == '_')):
+            end = src.find('"' + mr.group(1), i + len(mr.group(0)))
+            if end < 0:
+                raise Unrecognised('unterminated raw string')
+            toks.append(('rawstr', src[i:end + 1 + len(mr.group(1))]))
+            i = end + 1 + len(mr.group(1))
+            continue
         m = TOK.match(src, i)
         if not m:
             raise Unrecognised('cannot tokenise at %r' % src[i:i + 30])
@@ -515,6 +523,132 @@ def parse_from_file_name(toks):
     return out
 
 
+
+# ---------------------------------------------------------------- c.rs: generate_hash_key (what reaches the two keys, and when)
+
+FIELDS = {'common_args': 'DCommon', 'arch_args': 'DArch', 'preprocessor_args': 'DPre', 'dependency_args': 'DDep',
+          'unhashed_args': 'DUnhashed'}
+
+
+def parse_env_list(toks, what):
+    i = find_seq(toks, ['static', 'CACHED_ENV_VARS'])
+    if i < 0:
+        raise Unrecognised('%s: static CACHED_ENV_VARS not found' % what)
+    j = i
+    while j < len(toks) and toks[j][1] != '[':
+        j += 1
+    e = match_close(toks, j)
+    names = []
+    for item in split_top(toks[j + 1:e]):
+        if len(item) == 1 and item[0][0] == 'str':
+            names.append(unquote(item[0][1]))
+        else:
+            raise Unrecognised('%s: CACHED_ENV_VARS entry %s' % (what, text(item)))
+    if not names:
+        raise Unrecognised('%s: CACHED_ENV_VARS is empty' % what)
+    return names
+
+
+def parse_generate_hash_key(c_toks, pp_toks):
+    body = fn_body(c_toks, 'generate_hash_key', ['async'])
+    stmts = [st for st in split_top(body, ';') if st]
+    tx = [text(st) for st in stmts]
+    # ---- the reference time of the "include is too new" guard is taken before anything else happens
+    if not tx or tx[0] != 'let start_of_compilation = std :: time :: SystemTime :: now ( )':
+        raise Unrecognised('generate_hash_key: the first statement is no longer `let start_of_compilation = SystemTime::now()`: ' + (tx[0][:200] if tx else ''))
+    if sum(1 for k in range(len(body) - 1) if body[k][1] == 'start_of_compilation' and body[k + 1][1] in ('=', ':')) != 1:
+        raise Unrecognised('generate_hash_key: start_of_compilation is bound more than once')
+
+    def first(seq, name):
+        k = find_seq(body, seq)
+        if k < 0:
+            raise Unrecognised('generate_hash_key: %s not found' % name)
+        return k
+    events = [('start_of_compilation', first(['start_of_compilation'], 'start_of_compilation')),
+              ('preprocessor_cache_entry_hash_key', first(['preprocessor_cache_entry_hash_key', '('], 'pp key call')),
+              ('preprocess', first(['.', 'preprocess', '('], 'the preprocessor run')),
+              ('process_preprocessed_file', first(['process_preprocessed_file', '('], 'process_preprocessed_file')),
+              ('hash_key', first(['hash_key', '('], 'hash_key call')),
+              ('add_result', first(['.', 'add_result', '('], 'add_result'))]
+    order = [n for n, _ in sorted(events, key=lambda e: e[1])]
+    for call in ('process_preprocessed_file', 'add_result'):
+        k = first([call, '('], call) if call == 'process_preprocessed_file' else first(['.', call, '('], call) + 1
+        e = match_close(body, k + 1)
+        if 'start_of_compilation' not in [t[1] for t in body[k + 1:e]]:
+            raise Unrecognised('generate_hash_key: %s no longer receives start_of_compilation' % call)
+
+    # ---- the two argument vectors
+    def vector(name):
+        comps = []
+        seen = 0
+        for st, t in zip(stmts, tx):
+            s = [x[1] for x in st]
+            if s[:4] == ['let', 'mut', name, '=']:
+                if len(s) == 11 and s[4:6] == ['parsed_args', '.'] and s[6] in FIELDS and s[7:] == ['.', 'clone', '(', ')']:
+                    comps.append(('KList', FIELDS[s[6]], None))
+                    seen += 1
+                else:
+                    raise Unrecognised('generate_hash_key: initialisation of %s: %s' % (name, t[:200]))
+            elif s[:2] == [name, '.']:
+                seen += 1
+                arg = s[4:-1]
+                if arg and arg[-1] == ',':
+                    arg = arg[:-1]
+                if s[2] == 'extend' and len(arg) == 7 and arg[:2] == ['parsed_args', '.'] and arg[2] in FIELDS and arg[3:] == ['.', 'to_vec', '(', ')']:
+                    comps.append(('KList', FIELDS[arg[2]], None))
+                elif s[2] == 'push' and arg == ['cwd', '.', 'clone', '(', ')', '.', 'into_os_string', '(', ')']:
+                    comps.append(('KCwd', None, None))
+                elif s[2] == 'extend' and arg in (['profile_output_path'], ['profile_output_path', '.', 'clone', '(', ')']):
+                    comps.append(('KProfileOutput', None, None))
+                elif (s[2] == 'extend' and len(arg) == 23 and arg[:2] == ['parsed_args', '.'] and arg[2] in FIELDS
+                      and arg[3:10] == ['.', 'iter', '(', ')', '.', 'filter', '('] and arg[10] == '|' and arg[12] == '|' and arg[13] == '!'
+                      and arg[15] == '(' and arg[16] == arg[11] and arg[17:] == [')', ')', '.', 'cloned', '(', ')']):
+                    comps.append(('KFiltered', FIELDS[arg[2]], arg[14]))
+                elif (s[2] == 'retain' and len(arg) == 8 and arg[0] == '|' and arg[2] == '|' and arg[3] == '!' and arg[5] == '('
+                      and arg[6] == arg[1] and arg[7] == ')'):
+                    comps = [('KFiltered', d, arg[4]) if k == 'KList' else (k, d, pr) for k, d, pr in comps]
+                else:
+                    raise Unrecognised('generate_hash_key: statement on %s: %s' % (name, t[:300]))
+        uses = sum(1 for k in range(len(body) - 1) if body[k][1] == name and body[k + 1][1] == '.')
+        lets = sum(1 for k in range(2, len(body)) if body[k][1] == name and body[k - 1][1] == 'mut')
+        if uses + lets != seen:
+            raise Unrecognised('generate_hash_key: %s is also changed inside a nested block' % name)
+        if not comps:
+            raise Unrecognised('generate_hash_key: %s not found' % name)
+        return comps
+    pp_args = vector('preprocessor_and_arch_args')
+    main_args = vector('common_and_arch_args')
+    want_profile = ('let profile_output_path = if parsed_args . profile_generate { parsed_args . outputs . get ( "obj" ) . map ( | obj | '
+                    'cwd . join ( & obj . path ) . into_os_string ( ) ) } else { None }')
+    if want_profile not in tx:
+        raise Unrecognised('generate_hash_key: profile_output_path changed')
+    # ---- the environment handed to both key functions
+    env_prefilter = None
+    envst = [t for t in tx if t.startswith('let mut sorted_env_vars')]
+    if envst == ['let mut sorted_env_vars = env_vars . clone ( )']:
+        env_prefilter = None
+    elif len(envst) == 1 and re.match(r'^let mut sorted_env_vars (: Vec < \( OsString , OsString \) > )?= env_vars \. iter \( \) \. filter \( \| \( (\w+) , _ \) \| '
+                                      r'(\w+) \. contains \( \2 \. as_os_str \( \) \) \) \. cloned \( \) \. collect \( \)$', envst[0]):
+        env_prefilter = re.search(r'\| (\w+) \. contains', envst[0]).group(1)
+        if env_prefilter != 'CACHED_ENV_VARS':
+            raise Unrecognised('generate_hash_key: environment filtered by an unknown list ' + env_prefilter)
+    else:
+        raise Unrecognised('generate_hash_key: sorted_env_vars is built differently: %r' % envst)
+    if 'sorted_env_vars . sort ( )' not in tx:
+        raise Unrecognised('generate_hash_key: sorted_env_vars is no longer sorted')
+    all_text = text(body)
+    want_main = ('hash_key ( & executable_digest , parsed_args . language , & common_and_arch_args , & extra_hashes , & sorted_env_vars , '
+                 '& preprocessor_result . stdout , compiler . plusplus ( ) , )')
+    want_pp = ('preprocessor_cache_entry_hash_key ( & executable_digest , parsed_args . language , & preprocessor_and_arch_args , & extra_hashes , '
+               '& sorted_env_vars , & absolute_input_path , compiler . plusplus ( ) , preprocessor_cache_mode_config , )')
+    if want_main not in all_text:
+        raise Unrecognised('generate_hash_key: the arguments of the hash_key call changed')
+    if want_pp not in all_text:
+        raise Unrecognised('generate_hash_key: the arguments of the preprocessor_cache_entry_hash_key call changed')
+    return dict(key_order=order, pp_key_args=pp_args, main_key_args=main_args, env_prefilter=env_prefilter,
+                main_key_env=parse_env_list(c_toks, 'c.rs'), pp_key_env=parse_env_list(pp_toks, 'preprocessor_cache.rs'))
+
+
 # ---------------------------------------------------------------- reading the hand-written Coq side
 
 def coq_ctor_list(argtypes_v, name):
@@ -567,9 +701,20 @@ def read_all(repo):
     if not isinstance(spec['expand_limit'], int):
         raise Unrecognised('const MAX_INCLUDE_FILE_EXPANSIONS: usize not found')
     want = 'if self . expansions_left == 0 { return Some ( arg ) ; } self . expansions_left - = 1 ;'
+    m = re.search(r"if contents \. contains \( ('(?:[^'\\]|\\.)') \)((?: \|\| contents \. contains \( '(?:[^'\\]|\\.)' \))*) \{ return Some \( arg \) ; \}", text(gcc))
+    if not m:
+        raise Unrecognised('ExpandIncludeFile::next: the test for characters that stop the expansion changed')
+    lits = []
+    for lit in re.findall(r"'((?:[^'\\]|\\.))'", m.group(0)):
+        c = {'\\\'': "'", '\\\\': '\\', '"': '"'}.get(lit, lit)
+        if len(c) != 1 or ord(c) > 126:
+            raise Unrecognised('ExpandIncludeFile::next: character literal %r' % lit)
+        lits.append(ord(c))
+    spec['rsp_literal'] = lits
     if want not in text(gcc) or 'expansions_left : MAX_INCLUDE_FILE_EXPANSIONS ,' not in text(gcc):
         raise Unrecognised('ExpandIncludeFile::next: the expansion bound changed')
     spec.update(parse_parse_arguments(gcc, variants))
+    spec.update(parse_generate_hash_key(toks_of('src/compiler/c.rs'), toks_of('src/compiler/preprocessor_cache.rs')))
     if spec['arch_flag'] is None:
         raise Unrecognised('const ARCH_FLAG not found')
     return spec
@@ -609,6 +754,7 @@ def emit(spec, argtypes_v):
         A('')
     A('Definition arch_flag : bytes := %s.' % coq_bytes(spec['arch_flag']))
     A('Definition expand_limit : N := %d.' % spec['expand_limit'])
+    A('Definition rsp_literal_chars : list N := [ %s ].' % '; '.join(str(c) for c in spec['rsp_literal']))
     A('')
     A('(* arms `=> {}` of the first match of the main loop: constructors without any effect on the parser state *)')
     A('Definition noeffect_class : list argdata := [ %s ].' % '; '.join(spec['noeffect']))
@@ -639,6 +785,25 @@ def emit(spec, argtypes_v):
             A('  | L%s => %s' % (l, 'None' if v is None else 'Some ' + coq_bytes(v)))
         A('  end.')
         A('')
+
+    def comp(c):
+        k, d, pr = c
+        if k == 'KList':
+            return 'KList ' + d
+        if k == 'KFiltered':
+            return 'KFiltered %s %s' % (d, coq_bytes(pr))
+        if k == 'KCwd':
+            return 'KCwd'
+        return 'KProfileOutput'
+    A('(* c.rs generate_hash_key: what is put into the argument vectors of the two keys, the environment both key')
+    A('   functions receive, and the order of the steps (the "include too new" reference time comes first) *)')
+    A('Definition pp_key_args : list keycomp := [ %s ].' % '; '.join(comp(c) for c in spec['pp_key_args']))
+    A('Definition main_key_args : list keycomp := [ %s ].' % '; '.join(comp(c) for c in spec['main_key_args']))
+    A('Definition main_key_env : list bytes := [ %s ].' % '; '.join(coq_bytes(n) for n in spec['main_key_env']))
+    A('Definition pp_key_env : list bytes := [ %s ].' % '; '.join(coq_bytes(n) for n in spec['pp_key_env']))
+    A('Definition env_prefilter : option (list bytes) := %s.' % ('None' if spec['env_prefilter'] is None else 'Some main_key_env'))
+    A('Definition key_order : list bytes := [ %s ].' % '; '.join(coq_bytes(n) for n in spec['key_order']))
+    A('')
     return '\n'.join(L)
 
 
